@@ -114,6 +114,31 @@ func verifGoID() uint64 { return getg().goid }
             t = re.sub(r'\n\t"sync"\n', "\n", t, count=1)
         emit(p, t)
 
+    # ---- scheduling points: places where a goroutine can be preempted between two
+    # statements that touch state shared by concurrent reconciles, and where no
+    # seam call gives the scheduler a chance otherwise. Anchored by pattern; a
+    # pattern that no longer matches the current tree is skipped (never a failure).
+    points = {
+        "internal/controller/pkg/revision/imageback.go": [
+            (r"(\tfor _, o := range bo \{\n\t\to\(\w+\)\n\t\}\n)", "ImageBackend.Init: backend options applied"),
+        ],
+    }
+    for rel, pats in points.items():
+        p = os.path.join(REPO, rel)
+        if not os.path.exists(p):
+            continue
+        t = open(p).read()
+        n = 0
+        for pat, label in pats:
+            t, k = re.subn(pat, lambda m: m.group(1) + '\tsimsync.Point("%s")\n' % label, t, count=1)
+            n += k
+        if n == 0:
+            print("gen_overlay: no scheduling point inserted in %s (pattern not found)" % rel, file=sys.stderr)
+            continue
+        if "internal/simsync" not in t:
+            t = t.replace('import (\n', 'import (\n\t"github.com/crossplane/crossplane/internal/simsync"\n', 1)
+        emit(p, t)
+
     # ---- overlay-only package internal/simsync
     src = open(os.path.join(VERIF, "sim", "overlaysrc", "simsync.go.txt")).read()
     emit(os.path.join(REPO, "internal/simsync/simsync.go"), src)
